@@ -27,7 +27,7 @@ var authItems = []string{
 	"S4-rsa-sign-cert", "S4-p256-sign-cert", "S4-rsa-enc-cert", "S5-skx-other-key", "S6-skx-replayed-randoms", "S7-skx-other-enc-cert", "S8-skx-omitted", "S9-skx-malformed",
 	"S10-no-enc-key", "S11-certs-swapped", "S12-one-cert", "S13-eku-clientauth-only", "S14-keyusage-sign-cert", "S14-keyusage-enc-cert", "V1-client-callback-rejects", "S15-untrusted-ca-ships-its-root", "S15-extra-unrelated-selfsigned",
 	"C0-honest-client", "C1-no-cert", "C2-untrusted-ca", "C3-cv-other-key", "C4-cv-other-transcript", "C5-cv-omitted", "C6-selfsigned-allowed", "C7-selfsigned-cv-other-key", "C8-ifgiven-no-cert", "C9-expired", "C9-server-clock-after", "C10-eku-serverauth-only", "V2-server-callback-rejects", "C11-foreign-cert-first-own-cert-second", "C12-certificate-message-omitted",
-	"S16-dual-usage-sign-cert-enc-key-not-held",
+	"S16-dual-usage-sign-cert-enc-key-not-held", "S17-lookalike-of-trusted-root", "S18-leaves-issued-by-v1-end-entity", "C13-lookalike-of-trusted-root", "C14-leaf-issued-by-v1-end-entity", "TS7-leaf-issued-by-v1-end-entity", "TC14-leaf-issued-by-v1-end-entity",
 	"TS0-honest-server", "TS1-untrusted-root", "TS3-wrong-name", "TS10-rsa-key-not-held", "TS5-ecdhe-params-signed-by-other-key", "TS6-ecdhe-params-signature-over-other-randoms", "TS9-ecdhe-params-signature-garbage", "TS4-ecdsa-cert-for-rsa-suite",
 	"TC0-honest-client", "TC1-no-cert", "TC2-untrusted-ca", "TC3-cv-other-key", "TC4-cv-other-transcript", "TC5-cv-omitted", "TC5-cv-omitted-enc-only-cert", "TC3-cv-other-key-enc-only-cert", "TC12-certificate-message-omitted", "TC8-ifgiven-no-cert",
 	"T0-honest", "T1-wrong-name", "T2-untrusted-root", "T3-client-cert-untrusted", "T4-no-client-cert", "T5-client-cert-if-given-untrusted", "T6-ip-literal-name",
@@ -83,7 +83,7 @@ func drawImpostor(c *simkit.Choice, ent *simkit.Stream) impRun {
 		sc := &reftls.ServerCfg{Rand: ent, Suites: []uint16{ir.Suite}, Sign: ident("srv-sign", true), Enc: ident("srv-enc", true)}
 		ir.scfg = sc
 		items := []string{"S0-honest-server", "S1-untrusted-ca", "S2-expired", "S2-not-yet-valid", "S2-client-clock-before", "S2-client-clock-after", "S2-one-expired", "S3-wrong-name", "S3-one-wrong-name", "S3-ip-literal-server-name",
-			"S4-rsa-sign-cert", "S4-p256-sign-cert", "S4-rsa-enc-cert", "S5-skx-other-key", "S6-skx-replayed-randoms", "S7-skx-other-enc-cert", "S8-skx-omitted", "S9-skx-malformed", "S10-no-enc-key", "S11-certs-swapped", "S12-one-cert", "S13-eku-clientauth-only", "S14-keyusage-sign-cert", "S14-keyusage-enc-cert", "V1-client-callback-rejects", "S15-untrusted-ca-ships-its-root", "S15-extra-unrelated-selfsigned", "S16-dual-usage-sign-cert-enc-key-not-held"}
+			"S4-rsa-sign-cert", "S4-p256-sign-cert", "S4-rsa-enc-cert", "S5-skx-other-key", "S6-skx-replayed-randoms", "S7-skx-other-enc-cert", "S8-skx-omitted", "S9-skx-malformed", "S10-no-enc-key", "S11-certs-swapped", "S12-one-cert", "S13-eku-clientauth-only", "S14-keyusage-sign-cert", "S14-keyusage-enc-cert", "V1-client-callback-rejects", "S15-untrusted-ca-ships-its-root", "S15-extra-unrelated-selfsigned", "S16-dual-usage-sign-cert-enc-key-not-held", "S17-lookalike-of-trusted-root", "S18-leaves-issued-by-v1-end-entity"}
 		ir.Item = items[c.Choose(len(items), simkit.LFault)]
 		switch ir.Item {
 		case "S0-honest-server":
@@ -171,6 +171,15 @@ func drawImpostor(c *simkit.Choice, ent *simkit.Stream) impRun {
 			ir.Expect = expAny
 		case "V1-client-callback-rejects":
 			ir.CallbackRejects = true // honest server; the victim's VerifyPeerCertificate says no
+		case "S17-lookalike-of-trusted-root":
+			// self-issued certificates that copy the trusted root's subject name and
+			// subject key identifier (both public), with the impostor's own keys
+			sc.Sign, sc.Enc = ident("lookA-sign", true), ident("lookA-enc", true)
+		case "S18-leaves-issued-by-v1-end-entity":
+			// the holder of an ordinary X.509 v1 end-entity certificate from the trusted CA
+			// issues certificates for server.sim and ships its own certificate as intermediate
+			sc.Sign = &reftls.Identity{Chain: [][]byte{pki.DER("forged-sign"), pki.DER("v1ee")}, Key: pki.D("forged-sign")}
+			sc.Enc = ident("forged-enc", true)
 		case "S16-dual-usage-sign-cert-enc-key-not-held":
 			// the signing certificate also carries keyEncipherment; the impostor holds the
 			// signing key only and tries it on the ClientKeyExchange. The pre-master must
@@ -188,7 +197,7 @@ func drawImpostor(c *simkit.Choice, ent *simkit.Stream) impRun {
 	cc := &reftls.ClientCfg{Rand: ent, Suites: []uint16{ir.Suite}, ServerName: "server.sim"}
 	ir.ccfg = cc
 	ir.Policy = gmtls.RequireAndVerifyClientCert
-	items := []string{"C0-honest-client", "C1-no-cert", "C2-untrusted-ca", "C3-cv-other-key", "C4-cv-other-transcript", "C5-cv-omitted", "C6-selfsigned-allowed", "C7-selfsigned-cv-other-key", "C8-ifgiven-no-cert", "C9-expired", "C9-server-clock-after", "C10-eku-serverauth-only", "V2-server-callback-rejects", "C11-foreign-cert-first-own-cert-second", "C12-certificate-message-omitted"}
+	items := []string{"C0-honest-client", "C1-no-cert", "C2-untrusted-ca", "C3-cv-other-key", "C4-cv-other-transcript", "C5-cv-omitted", "C6-selfsigned-allowed", "C7-selfsigned-cv-other-key", "C8-ifgiven-no-cert", "C9-expired", "C9-server-clock-after", "C10-eku-serverauth-only", "V2-server-callback-rejects", "C11-foreign-cert-first-own-cert-second", "C12-certificate-message-omitted", "C13-lookalike-of-trusted-root", "C14-leaf-issued-by-v1-end-entity"}
 	ir.Item = items[c.Choose(len(items), simkit.LFault)]
 	verifying := []gmtls.ClientAuthType{gmtls.RequireAndVerifyClientCert, gmtls.VerifyClientCertIfGiven}
 	lax := []gmtls.ClientAuthType{gmtls.RequireAnyClientCert, gmtls.RequestClientCert}
@@ -242,6 +251,12 @@ func drawImpostor(c *simkit.Choice, ent *simkit.Stream) impRun {
 		// the client ignores the CertificateRequest altogether (consistent transcript)
 		cc.IgnoreCertRequest = true
 		ir.Policy = []gmtls.ClientAuthType{gmtls.RequireAndVerifyClientCert, gmtls.RequireAnyClientCert}[c.Choose(2, simkit.LFault)]
+	case "C13-lookalike-of-trusted-root":
+		cc.Cert = ident("lookA-cli", true)
+		ir.Policy = verifying[c.Choose(2, simkit.LFault)]
+	case "C14-leaf-issued-by-v1-end-entity":
+		cc.Cert = &reftls.Identity{Chain: [][]byte{pki.DER("forged-cli"), pki.DER("v1ee")}, Key: pki.D("forged-cli")}
+		ir.Policy = verifying[c.Choose(2, simkit.LFault)]
 	case "V2-server-callback-rejects":
 		cc.Cert = ident("cli", true)
 		ir.Policy = []gmtls.ClientAuthType{gmtls.RequireAndVerifyClientCert, gmtls.VerifyClientCertIfGiven, gmtls.RequireAnyClientCert, gmtls.RequestClientCert}[c.Choose(4, simkit.LFault)]
@@ -270,14 +285,16 @@ func drawImpostorTLS(c *simkit.Choice, ent *simkit.Stream, ir *impRun) {
 	if !ir.VictimSrv {
 		sc := &reftls.ServerCfg{Rand: ent, Suites: []uint16{ir.Suite}, TLS12: true, Sign: rsaID("tlsrsa", true)}
 		ir.scfg = sc
-		items := []string{"TS0-honest-server", "TS1-untrusted-root", "TS3-wrong-name", "TS10-rsa-key-not-held", "TS4-ecdsa-cert-for-rsa-suite"}
+		items := []string{"TS0-honest-server", "TS1-untrusted-root", "TS3-wrong-name", "TS10-rsa-key-not-held", "TS4-ecdsa-cert-for-rsa-suite", "TS7-leaf-issued-by-v1-end-entity"}
 		if ecdhe {
-			items = []string{"TS0-honest-server", "TS1-untrusted-root", "TS3-wrong-name", "TS5-ecdhe-params-signed-by-other-key", "TS6-ecdhe-params-signature-over-other-randoms", "TS9-ecdhe-params-signature-garbage"}
+			items = []string{"TS0-honest-server", "TS1-untrusted-root", "TS3-wrong-name", "TS5-ecdhe-params-signed-by-other-key", "TS6-ecdhe-params-signature-over-other-randoms", "TS9-ecdhe-params-signature-garbage", "TS7-leaf-issued-by-v1-end-entity"}
 		}
 		ir.Item = items[c.Choose(len(items), simkit.LFault)]
 		switch ir.Item {
 		case "TS0-honest-server":
 			ir.Expect = expComplete
+		case "TS7-leaf-issued-by-v1-end-entity":
+			sc.Sign = &reftls.Identity{Chain: [][]byte{pki.DER("forgedrsa-srv"), pki.DER("v1eersa")}, RSA: refRSA("forgedrsa-srv")}
 		case "TS1-untrusted-root":
 			ir.VictimRoots = "caA"
 		case "TS3-wrong-name":
@@ -306,7 +323,7 @@ func drawImpostorTLS(c *simkit.Choice, ent *simkit.Stream, ir *impRun) {
 	cc := &reftls.ClientCfg{Rand: ent, Suites: []uint16{ir.Suite}, ServerName: "server.sim", Vers: reftls.VersionTLS12, VersSet: true, Curves: []uint16{23, 24, 25}}
 	ir.ccfg = cc
 	ir.Policy = gmtls.RequireAndVerifyClientCert
-	items := []string{"TC0-honest-client", "TC1-no-cert", "TC2-untrusted-ca", "TC3-cv-other-key", "TC4-cv-other-transcript", "TC5-cv-omitted", "TC5-cv-omitted-enc-only-cert", "TC3-cv-other-key-enc-only-cert", "TC12-certificate-message-omitted", "TC8-ifgiven-no-cert"}
+	items := []string{"TC0-honest-client", "TC1-no-cert", "TC2-untrusted-ca", "TC3-cv-other-key", "TC4-cv-other-transcript", "TC5-cv-omitted", "TC5-cv-omitted-enc-only-cert", "TC3-cv-other-key-enc-only-cert", "TC12-certificate-message-omitted", "TC8-ifgiven-no-cert", "TC14-leaf-issued-by-v1-end-entity"}
 	ir.Item = items[c.Choose(len(items), simkit.LFault)]
 	verifying := []gmtls.ClientAuthType{gmtls.RequireAndVerifyClientCert, gmtls.VerifyClientCertIfGiven}
 	all := []gmtls.ClientAuthType{gmtls.RequireAndVerifyClientCert, gmtls.VerifyClientCertIfGiven, gmtls.RequireAnyClientCert, gmtls.RequestClientCert}
@@ -342,6 +359,9 @@ func drawImpostorTLS(c *simkit.Choice, ent *simkit.Stream, ir *impRun) {
 		cc.Cert = rsaID("tlsclienc", false)
 		cc.CertVerifyRSA = refRSA("tlsrsa2")
 		ir.Policy = all[c.Choose(4, simkit.LFault)]
+	case "TC14-leaf-issued-by-v1-end-entity":
+		cc.Cert = &reftls.Identity{Chain: [][]byte{pki.DER("forgedrsa-cli"), pki.DER("v1eersa")}, RSA: refRSA("forgedrsa-cli")}
+		ir.Policy = verifying[c.Choose(2, simkit.LFault)]
 	case "TC12-certificate-message-omitted":
 		cc.IgnoreCertRequest = true
 		ir.Policy = []gmtls.ClientAuthType{gmtls.RequireAndVerifyClientCert, gmtls.RequireAnyClientCert}[c.Choose(2, simkit.LFault)]
